@@ -2160,6 +2160,112 @@ pub fn case_c03(w: &mut World, t: &mut Tape) -> E2eOut {
     E2eOut { out, inconclusive: None }
 }
 
+// ---------------------------------------------------------------- C08 case (roles of the real daemon's ports)
+
+/// One case: two masters, P on the first segment (priority1 100) and Q on the second (priority1 50 or 120), come and
+/// go in 3-6 generated phases of 0.7-1.5 s, so that the daemon's ports change roles. The observation socket is polled
+/// every 20 ms and every frame the daemon sends is noted with its segment. Invariants: never more than one slave
+/// port; Announce / Sync / Follow_Up / Delay_Resp on a segment only while that port is, or within 200 ms becomes or
+/// was, master; Delay_Req on a segment never while that port is master throughout the surrounding 400 ms.
+pub fn case_c08(w: &mut World, t: &mut Tape) -> E2eOut {
+    let mut out = CaseOut::new();
+    let nph = t.urange(3, 6) as usize;
+    let mut phases = vec![];
+    for _ in 0..nph {
+        phases.push((t.chance(2, 3), t.chance(2, 3), *t.pick(&[50u8, 120]), t.urange(700, 1500)));
+    }
+    let rendered = json!({"phases(P on, Q on, Q priority1, ms)": phases.iter().map(|p| format!("{:?}", p)).collect::<Vec<_>>()});
+    out.render = rendered.clone();
+    let q = PortId { clock: [0x00, 0x1b, 0x19, 0xcc, 0, 0, 0, 0x51], port: 1 };
+    let mut q_seq = t.below(0x10000) as u16;
+    let probe_src = PortId { clock: [0x00, 0x1b, 0x19, 0xdd, 0, 0, 0, 0x09], port: 1 };
+    let mut probe_seq = t.below(0x10000) as u16;
+    let probe_phase = t.below(4);
+    let (mut tick, mut probes) = (0u64, 0u64);
+    w.log.clear();
+    let mut polls: Vec<(Instant, String, String)> = vec![];
+    for (p_on, q_on, q_p1, ms) in &phases {
+        let p0 = Instant::now();
+        w.next_parent = if *p_on { Instant::now() } else { p0 + Duration::from_millis(*ms + 50) };
+        let mut next_q = Instant::now();
+        while p0.elapsed() < Duration::from_millis(*ms) {
+            let d = Instant::now() + Duration::from_millis(20);
+            w.run_until(d);
+            if *q_on && Instant::now() >= next_q {
+                next_q = Instant::now() + Duration::from_millis(ANN_MS);
+                q_seq = q_seq.wrapping_add(1);
+                let mut ann = simple_announce(q.clock, *q_p1, 6, 0);
+                ann.gm_identity = q.clock;
+                let mut m = announce_from(q, q_seq, ann, 0, 0);
+                m.header.log_interval = ANN_LOG;
+                w.send_b(&m);
+            }
+            // a foreign requester on both segments: only a master port may answer it
+            if tick % 4 == probe_phase {
+                probe_seq = probe_seq.wrapping_add(1);
+                let m = RMsg::new(T_DELAY_REQ, probe_src, probe_seq, RBody::DelayReq { origin: RTs::default() });
+                w.send_a(&m);
+                w.send_b(&m);
+                probes += 1;
+            }
+            tick += 1;
+            if let Some((a, b)) = w.port_states() {
+                polls.push((Instant::now(), a, b));
+            }
+        }
+    }
+    // back to the plain parent
+    w.next_parent = Instant::now();
+    if !w.alive() {
+        out.fail("daemon exited", rendered.to_string());
+        return E2eOut { out, inconclusive: None };
+    }
+    if polls.len() < 20 {
+        return E2eOut { out, inconclusive: Some("observation socket hardly answered".into()) };
+    }
+    let is = |s: &String, what: &str| s.starts_with(what);
+    for (_, a, b) in &polls {
+        if is(a, "Slave") && is(b, "Slave") {
+            out.fail("daemon: two ports in the slave state at once", format!("{} / {} ; {}", a, b, rendered));
+            break;
+        }
+    }
+    let frames = w.log.clone();
+    let win = Duration::from_millis(200);
+    let mut roles_seen: BTreeSet<String> = BTreeSet::new();
+    for (side, ty, at) in &frames {
+        let around: Vec<&String> = polls.iter().filter(|p| p.0 + win >= *at && *at + win >= p.0).map(|p| if *side == 'a' { &p.1 } else { &p.2 }).collect();
+        if around.len() < 4 {
+            continue;
+        }
+        for s in &around {
+            roles_seen.insert(s.split('(').next().unwrap_or("").to_string());
+        }
+        let master_type = matches!(*ty, T_ANNOUNCE | T_SYNC | T_FOLLOW_UP | T_DELAY_RESP);
+        if master_type && around.iter().all(|s| !is(s, "Master")) && out.violation.is_none() {
+            out.fail("daemon: master traffic from a port that is not master", format!("{} on the {} segment while that port was {:?} throughout the surrounding 400 ms ; {}", type_name(*ty), if *side == 'a' { "first" } else { "second" }, around.iter().map(|s| s.as_str()).collect::<BTreeSet<_>>(), rendered));
+        }
+        if *ty == T_DELAY_REQ && around.iter().all(|s| is(s, "Master")) && out.violation.is_none() {
+            out.fail("daemon: Delay_Req from a port that is master", format!("on the {} segment ; {}", if *side == 'a' { "first" } else { "second" }, rendered));
+        }
+    }
+    // leave the daemon as the next case expects it
+    let r0 = Instant::now();
+    while r0.elapsed() < Duration::from_millis(2500) {
+        let d = Instant::now() + Duration::from_millis(100);
+        w.run_until(d);
+        if w.steady() {
+            break;
+        }
+    }
+    if roles_seen.len() >= 2 {
+        out.nontrivial = Some(hash_of(&rendered.to_string()));
+    }
+    out.label(format!("daemon:roles-seen:{}", roles_seen.len()));
+    out.label(format!("daemon:delay-req-probes:{}", if probes >= 20 { ">=20" } else { "<20" }));
+    E2eOut { out, inconclusive: None }
+}
+
 // ---------------------------------------------------------------- C09 case (what the real daemon hands to its filter)
 
 /// One case: the harness is the grandmaster (kernel timestamps both ways, generated drift); for 6-10 s it records
@@ -2970,6 +3076,7 @@ pub fn worker_main(args: &[String]) -> i32 {
             "C11" => case_c11(&mut w, &mut tape),
             "C03" => case_c03(&mut w, &mut tape),
             "C09" => case_c09(&mut w, &mut tape),
+            "C08" => case_c08(&mut w, &mut tape),
             "C06" => case_c06(&mut w, &mut tape, idx as u32),
             _ => {
                 println!("{}", json!({"fatal": format!("no end-to-end case for {}", prop)}));
